@@ -271,6 +271,7 @@ PROPERTIES = {
             part("C09.clique", shards={"quick": 16, "thorough": 16}, floor=200),
             part("C09.kauri", shards={"quick": 16, "thorough": 16}, floor=200),
             part("C09.async", race=True, shards={"quick": 8, "thorough": 16}, floor=30, timeout={"quick": 900, "thorough": 7200}),
+            part("C09.live", race=True, shards={"quick": 4, "thorough": 16}, floor=1, timeout={"quick": 900, "thorough": 7200}),
             part("C09.pipeline", race=True, shards={"quick": 8, "thorough": 16}, floor=30, timeout={"quick": 900, "thorough": 7200}),
         ],
     },
